@@ -112,6 +112,36 @@ def replay_histories(run, blocks, maxlen):
     return shapes
 
 
+def repo_test_local_consistency(run):
+    """the repository's own, unedited test-suite as a driver: every Evaluator.evaluate() it performs (nested evaluations
+    included) is recorded with the values the model holds for the directly addressed cells and judged by TLC (Trace_Local)"""
+    import glob
+    import json
+    import os
+    import subprocess
+    import sys
+    from harness import evalrec
+    from harness.core import VERIF
+    rec = os.path.join(run.work, 'repotests')
+    os.makedirs(rec, exist_ok=True)
+    env = dict(os.environ, PYTHONPATH=VERIF, VERIF_REC_FILE=os.path.join(rec, 'ev'), VERIF_DIR=VERIF, XLCALC_REPO=xl.REPO, VERIF_REC_EVAL='1')
+    subprocess.run([sys.executable, '-m', 'pytest', '-q', '-p', 'no:cacheprovider', '-p', 'harness.pytest_recorder', '-n', '8',
+                    '--timeout=900'], cwd=xl.REPO, env=env, stdout=subprocess.DEVNULL, stderr=subprocess.DEVNULL, timeout=1800)
+    evs, seen = [], set()
+    for p in sorted(glob.glob(os.path.join(rec, 'ev.eval.*'))):
+        for line in open(p):
+            e = json.loads(line)
+            key = json.dumps([e['ast'], e['sheet'], e['cells'], e['names'], e['res']], sort_keys=True)
+            if key not in seen:
+                seen.add(key)
+                evs.append(e)
+    if len(evs) < 200:
+        raise xl.MachineryError(f'only {len(evs)} evaluations recorded from the repository test-suite')
+    run.evaluations += len(evs)
+    verdicts = evalrec.validate(run, evs, name='repotests')
+    run.notes['repo_test_evaluations'] = {'events': len(evs), 'verdicts': dict(verdicts)}
+
+
 def run(run):
     quick = run.tier == 'quick'
     load_shapes(run)
@@ -134,6 +164,13 @@ def run(run):
                 'after every step the response and the stored value of every set/evaluated cell are compared with the specification state; '
                 'every history is a distinct TLC state (history variable)')
     run.exhaustive = True
+    # code -> spec: random multi-sheet workbooks under random histories, every evaluation judged by TLC (Trace_Local)
+    from checks import wbdrive
+    v = wbdrive.run_driver(run, 1500 if quick else 25000, mix='c04')
+    if v.get('ok', 0) < 3000:
+        raise xl.MachineryError(f'random workbook driver is vacuous: {dict(v)}')
+    if not quick:
+        repo_test_local_consistency(run)
 
 
 def replay(path):
